@@ -128,14 +128,17 @@ CLAIMED = {
         note=COMMON_NOTE + 'That child errors are keyed by definition index in definitions_errors rests on the schema-path shape of child errors, which is checked by the oracle and the port (schema paths compared), not yet by a theorem.',
         design='§6 C09'),
     'C10': dict(
-        technique='Lean 4 proof (child-context lemmas and one call-site theorem per container rule) + standalone-sub-document oracle + validate0 correspondence',
+        technique='Lean 4 proof (child-context lemmas, one call-site theorem per container rule, path equivariance of the whole validation) + standalone-sub-document oracle + validate0 correspondence',
         text=('C10_inherit, C10_paths, C10_root, C10_root_deep, C10_root_lookup (configuration copied except keyword overrides; paths '
               'prefixed; root document captured by the first generation only and used for ^-paths at every depth); C10_schema_mapping, '
               'C10_schema_sequence, C10_items, C10_valuesrules, C10_keysrules: each container rule reports exactly the errors of the '
-              'child validation of the sub-document / items / values / keys with the documented overrides and update flag. The step '
-              'from "child validation in a child context" to "standalone validation with prefixed paths" (path equivariance) is partial '
-              '(C10_equivariant_partial: error construction is equivariant) and is decided by the oracle, which validates every '
-              'sub-document standalone with real validators, and by the validate0 port.'),
+              'child validation of the sub-document / items / values / keys with the documented overrides and update flag. '
+              'C10_equivariant (Proofs/Prefix.lean, induction over the fuel through every handler): a validator whose document and schema '
+              'paths are longer at the front reports exactly the same errors with those prefixes on every path, child errors included; '
+              'C10_detached: hence the errors beneath a field are those of the same validator detached from its parent (empty document '
+              'path; class, configuration and root document kept) with the field path in front. What a root validator does differently '
+              'from a detached child (the __allow_unknown__ marker crumb, the root of ^-dependencies) is decided by the oracle, which '
+              'validates every sub-document standalone with real validators, and by the validate0 port.'),
         note=COMMON_NOTE + 'Item/value rule sets combining excludes with required are excluded as in the property; ^-dependencies below the compared field are skipped by the oracle and covered by C10_root_lookup + a direct depth-1..4 check.',
         design='§6 C10'),
     'C11': dict(
